@@ -1,6 +1,7 @@
 import NA.Proofs.C15Dec
 import NA.Model.IosRemoveBanner
 import NA.Model.IosTiming
+import NA.Model.IosLogin
 import NA.Core.IOUtil
 /-! Driver for C15 (core only). One case per line, fields separated by TAB; inside a field the
 characters `\ LF TAB CR BEL | ; = ,` are written `\\ \n \t \r \a \p \s \e \c`.
@@ -15,7 +16,8 @@ characters `\ LF TAB CR BEL | ; = ,` are written `\\ \n \t \r \a \p \s \e \c`.
       `R=<result> TAB T=<lines |> TAB W=<cmd,line |> TAB G=<guardOK>,<pendingAfter>,<rearms>,<changes>
        TAB H=<Chg.cleanB of all>,<Chg.noProbeFirstB of all>,<specOk>` (hypotheses of the banner theorems)
   behav = `<form>,<msg>,<out>` with form `N`, `A<pad>`, `B<off>`, `C<pad>`, `D`, `E<pre>.<post>`;
-  special = `<line>=<reply>;<reply>…`, a reply containing `<!>` where the device reads a line. -/
+  special = `<line>=<reply>;<reply>…`, a reply containing `<!>` where the device reads a line.
+* `login <pass> <greeting> <parts |>` → LoginEnable against `echoDev parts`: `R=<result> TAB T=<lines |> TAB P=<head>,<tail> TAB L=<left in the buffer>` -/
 namespace NA.Drv.C15
 open NA.Ios NA.IOUtil
 
@@ -164,6 +166,12 @@ def answer (line : String) : String :=
         | none => "0,0,0"
       s!"R={showRes r}\tT={joinBarS ls}\tW={ws}\tG={b2s (guardOK ls)},{b2s g.pending},{rearms ls},{g.changes}\tH={hyp}"
     | _, _ => "bad-input"
+  | ["login", pass, greeting, parts] =>
+    -- LoginEnable against the preamble of the scripted device: greeting, then one part per line read
+    let (r, st') := loginEnable (echoDev ((splitList parts "|").map un)) (un pass) { dev := 0, pend := un greeting }
+    match r with
+    | .ok v => s!"R=ok\tT={"|".intercalate (st'.trace.map esc)}\tP={esc v.head},{esc v.tail}\tL={esc st'.pend}"
+    | .abort e => s!"R=abort:{showAbort e}\tT={"|".intercalate (st'.trace.map esc)}\tP=\tL={esc st'.pend}"
   | ["monitor", ls] =>
     let l := (splitList ls "|").map un
     let g := Guard.run l
